@@ -38,6 +38,7 @@ def run(ctx, rep):
     rep.run(RM.rule_group_by_name, ctx, rep, "H8")
     rep.run(RH.rule_handle_protocol, ctx, rep, "H5")
     rep.run(RM.rule_return_ownership, ctx, rep, "H6")
+    rep.run(RM.rule_copy_exactly_for_values, ctx, rep, "H11")
     # H9: the .m dispatch that selects the routine id tests every argument the same way for every kind of callable
     rep.run(RM.rule_sibling_guards, ctx, rep, "H9")
     # H10: what create_object hands to MATLAB (inputs, count, class name) and where handles are looked up
